@@ -140,6 +140,23 @@ def run_chunk(cases):
                 if not (lo <= got <= hi):
                     bad.append("children(recursive=True) with pid %d vanishing at access %d -> %r, must lie between %r and %r"
                                % (victim, k, sorted(got), sorted(lo), sorted(hi)))
+                # ... and of the walk towards the root: the chain ends where the walk finds nobody
+                # (or runs through, if the walk had passed the victim already)
+                if not e["cyclic"] and victim in e["parents"]:
+                    build(w, e["tbl"])
+                    ps.pids()
+                    p2 = ps.Process(s)
+                    full = list(e["parents"])
+                    cut = full[:full.index(victim)]
+                    base = w.acc
+                    w.hooks.setdefault(base + k, []).append(lambda: w.vanish(victim))
+                    try:
+                        chain = [x.pid for x in bounded(p2.parents)]
+                    finally:
+                        w.hooks.clear()
+                    if chain not in (full, cut):
+                        bad.append("parents() with ancestor %d vanishing at access %d -> %r, must be %r or %r"
+                                   % (victim, k, chain, full, cut))
         except Hang:
             bad.append("a tree walk did not return within %d s" % BUDGET)
         except Exception as ex:  # noqa: BLE001
